@@ -13,14 +13,16 @@ Record lcase := {
   lc_franges : list (N * (N * N));
   lc_start : N;
   lc_prog : list lin;
-  lc_out : list (N * N * bool)           (* rows read back from the output: (address, line (0 on end rows), end_sequence) *)
+  lc_out : list (N * N * bool);          (* rows read back from the output: (address, line (0 on end rows), end_sequence) *)
+  lc_subs : list ((N * N) * (N * N))     (* per subprogram DIE: input (low_pc, high_pc offset), output (low_pc, high_pc offset) as read back *)
 }.
 
 Definition row_eqb (a b : N * N * bool) : bool := (fst (fst a) =? fst (fst b)) && (snd (fst a) =? snd (fst b)) && Bool.eqb (snd a) (snd b).
 Fixpoint rows_eqb (a b : list (N * N * bool)) : bool :=
   match a, b with [], [] => true | x :: a', y :: b' => row_eqb x y && rows_eqb a' b' | _, _ => false end.
 
-(* 0 = agree; 41 = the model reports Err where walrus emitted; 42 = rows differ; 43 = writer assertions / open sequence *)
+(* 0 = agree; 41 = the model reports Err where walrus emitted; 42 = rows differ; 43 = writer assertions / open sequence;
+   44 = a subprogram's (low_pc, high_pc) differs from convert_subprogram *)
 Definition check_lines (c : lcase) : N :=
   let t := {| dt_instrs := lc_instrs c; dt_ranges := lc_ranges c |} in
   let ct := {| ct_imap := lc_imap c; ct_franges := lc_franges c; ct_start := lc_start c |} in
@@ -28,5 +30,6 @@ Definition check_lines (c : lcase) : N :=
   | None => 41
   | Some (s, evs) =>
       if negb (writer_ok false 0 evs) || l_in s then 43
-      else if rows_eqb (rows_of 0 evs) (lc_out c) then 0 else 42
+      else if negb (rows_eqb (rows_of 0 evs) (lc_out c)) then 42
+      else if forallb (fun p => let '(lo, hi) := convert_subprogram t ct (fst (fst p)) (snd (fst p)) in (lo =? fst (snd p)) && (hi =? snd (snd p))) (lc_subs c) then 0 else 44
   end.
